@@ -14,12 +14,24 @@ import (
 
 // Hooks monitors may implement.
 type (
-	TxMonitor      interface{ OnTx(old, new *configapi.Transaction, w WriteRec) }
-	PropMonitor    interface{ OnProp(old, new *configapi.Proposal, w WriteRec) }
-	CfgMonitor     interface{ OnCfg(old, new *configapi.Configuration, w WriteRec) }
-	ValsMonitor    interface{ OnVals(cfgID string, keys []string, w WriteRec) }
-	DevMonitor     interface{ OnDevSet(target string, r *DevReq) }
-	TopoMonitor    interface{ OnTopo(ev topoapi.Event, task string) }
+	TxMonitor interface {
+		OnTx(old, new *configapi.Transaction, w WriteRec)
+	}
+	PropMonitor interface {
+		OnProp(old, new *configapi.Proposal, w WriteRec)
+	}
+	CfgMonitor interface {
+		OnCfg(old, new *configapi.Configuration, w WriteRec)
+	}
+	ValsMonitor interface {
+		OnVals(cfgID string, keys []string, w WriteRec)
+	}
+	DevMonitor interface {
+		OnDevSet(target string, r *DevReq)
+	}
+	TopoMonitor interface {
+		OnTopo(ev topoapi.Event, task string)
+	}
 	ReturnMonitor  interface{ OnReturn(c *Call) }
 	StepMonitor    interface{ AfterStep() }
 	CrashMonitor   interface{ OnCrash() }
@@ -335,6 +347,12 @@ func (r *Recorder) Summary() string {
 			c.Status.Applied.Index, c.Status.Mastership.Term, c.Status.Applied.Mastership.Term, r.s.K.Canon(c.Status.Mastership.Master), c.Status.State)
 	}
 	if os.Getenv("VERIF_VERBOSE") != "" {
+		for t, d := range r.s.Devs {
+			fmt.Fprintf(&sb, "| devlog %s:", t)
+			for _, q := range d.Log {
+				fmt.Fprintf(&sb, " [step %d #%d %s conn=%s el=%d %s ops=%v]", q.Step, q.N, q.Task, q.Conn, q.Election, q.Outcome, q.Ops)
+			}
+		}
 		for id, vals := range r.Vals {
 			ks := make([]string, 0, len(vals))
 			for k := range vals {
